@@ -29,6 +29,9 @@ type Config struct {
 	Enc     []lime.SessionEncryption
 	Comp    []lime.SessionCompression
 	TLS     bool // the listener has a TLS configuration
+	// FromBuilder: the server's option lists come out of a ServerBuilder that was given
+	// Enc/Comp through EncryptionOptions/CompressionOptions (the documented way to demand TLS)
+	FromBuilder bool
 }
 
 const (
@@ -39,12 +42,13 @@ const (
 )
 
 var Configs = []Config{
-	{"guest/none", []lime.AuthenticationScheme{lime.AuthenticationSchemeGuest}, []lime.SessionEncryption{none}, []lime.SessionCompression{cno}, false},
-	{"plain/none+tls", []lime.AuthenticationScheme{lime.AuthenticationSchemePlain}, []lime.SessionEncryption{none, tlsE}, []lime.SessionCompression{cno}, true},
-	{"plain+key/tls-only", []lime.AuthenticationScheme{lime.AuthenticationSchemePlain, lime.AuthenticationSchemeKey}, []lime.SessionEncryption{tlsE}, []lime.SessionCompression{cno}, true},
-	{"guest+plain+external/tls+none/gzip", []lime.AuthenticationScheme{lime.AuthenticationSchemeGuest, lime.AuthenticationSchemePlain, lime.AuthenticationSchemeExternal}, []lime.SessionEncryption{tlsE, none}, []lime.SessionCompression{cno, gz}, true},
-	{"transport/none+tls/no-tlsconfig", []lime.AuthenticationScheme{lime.AuthenticationSchemeTransport}, []lime.SessionEncryption{none, tlsE}, []lime.SessionCompression{cno}, false},
-	{"guest/none/gzip-only", []lime.AuthenticationScheme{lime.AuthenticationSchemeGuest}, []lime.SessionEncryption{none}, []lime.SessionCompression{gz}, false},
+	{"guest/none", []lime.AuthenticationScheme{lime.AuthenticationSchemeGuest}, []lime.SessionEncryption{none}, []lime.SessionCompression{cno}, false, false},
+	{"plain/none+tls", []lime.AuthenticationScheme{lime.AuthenticationSchemePlain}, []lime.SessionEncryption{none, tlsE}, []lime.SessionCompression{cno}, true, false},
+	{"plain+key/tls-only", []lime.AuthenticationScheme{lime.AuthenticationSchemePlain, lime.AuthenticationSchemeKey}, []lime.SessionEncryption{tlsE}, []lime.SessionCompression{cno}, true, false},
+	{"guest+plain+external/tls+none/gzip", []lime.AuthenticationScheme{lime.AuthenticationSchemeGuest, lime.AuthenticationSchemePlain, lime.AuthenticationSchemeExternal}, []lime.SessionEncryption{tlsE, none}, []lime.SessionCompression{cno, gz}, true, false},
+	{"transport/none+tls/no-tlsconfig", []lime.AuthenticationScheme{lime.AuthenticationSchemeTransport}, []lime.SessionEncryption{none, tlsE}, []lime.SessionCompression{cno}, false, false},
+	{Name: "builder:transport+guest/tls-only", Schemes: []lime.AuthenticationScheme{lime.AuthenticationSchemeTransport, lime.AuthenticationSchemeGuest}, Enc: []lime.SessionEncryption{tlsE}, Comp: []lime.SessionCompression{cno}, TLS: true, FromBuilder: true},
+	{"guest/none/gzip-only", []lime.AuthenticationScheme{lime.AuthenticationSchemeGuest}, []lime.SessionEncryption{none}, []lime.SessionCompression{gz}, false, false},
 }
 
 // what a TCP transport reports as supported
@@ -98,6 +102,14 @@ type input struct {
 	auth    string // "" none, "obj" scheme-appropriate object
 	rawJSON string // for data/garbage
 	vanish  bool   // close right after sending, without reading the answer
+	from    string // sender node of an authenticating envelope (default clientNode)
+}
+
+func (in input) sender() string {
+	if in.from != "" {
+		return in.from
+	}
+	return clientNode
 }
 
 func alphabet() []input {
@@ -113,6 +125,8 @@ func alphabet() []input {
 	for _, s := range []string{"guest", "plain", "key", "transport", "external"} {
 		a = append(a, input{name: "auth(" + s + ")", kind: "session", state: "authenticating", id: "echo", scheme: s, auth: "obj"})
 	}
+	a = append(a, input{name: "auth(guest;from=mallory)", kind: "session", state: "authenticating", id: "echo", scheme: "guest", auth: "obj", from: "mallory@cli.test/home"})
+	a = append(a, input{name: "auth(plain;from=mallory)", kind: "session", state: "authenticating", id: "echo", scheme: "plain", auth: "obj", from: "mallory@cli.test/home"})
 	a = append(a, input{name: "auth(zzz,noauth)", kind: "session", state: "authenticating", id: "echo", scheme: "zzz"})
 	a = append(a, input{name: "auth(noscheme)", kind: "session", state: "authenticating", id: "echo"})
 	a = append(a, input{name: "auth(guest,noauthobj)", kind: "session", state: "authenticating", id: "echo", scheme: "guest"})
@@ -173,7 +187,7 @@ func (in input) bytes(sid string) []byte {
 		m["authentication"] = authObj(in.scheme)
 	}
 	if in.state == "authenticating" {
-		m["from"] = clientNode
+		m["from"] = in.sender()
 	}
 	b, _ := json.Marshal(m)
 	return b
@@ -268,7 +282,7 @@ func typedEnvelope(in input, sid string) interface{} {
 		ses.Authentication = authObjTyped(in)
 	}
 	if in.state == "authenticating" {
-		ses.From = lime.ParseNode(clientNode)
+		ses.From = lime.ParseNode(in.sender())
 	}
 	return ses
 }
@@ -401,6 +415,11 @@ func body(variant string, cfgs []Config, depth int, allowTLSRefusal bool) func(x
 			sc := lime.NewServerConfig()
 			sc.Node = lib.ServerNode
 			sc.SchemeOpts, sc.EncryptOpts, sc.CompOpts = cfg.Schemes, cfg.Enc, cfg.Comp
+			if cfg.FromBuilder {
+				b := lime.NewServerBuilder().EncryptionOptions(cfg.Enc...).CompressionOptions(cfg.Comp...).EnableGuestAuthentication()
+				bc := b.ConfigForVerif()
+				sc.SchemeOpts, sc.EncryptOpts, sc.CompOpts = bc.SchemeOpts, bc.EncryptOpts, bc.CompOpts
+			}
 			sc.Backlog, sc.ChannelBufferSize = 1, 1
 			sc.Authenticate, sc.Register = authenticate, register
 			sc.Established = func(id string, c *lime.ServerChannel) {
@@ -899,8 +918,9 @@ func judge(prop string) func(x *harness.X, res *rt.Result) {
 						if so.in.auth == "" {
 							wantCanon = "null"
 						}
-						if ac.identity != "alice@cli.test" || (so.in.auth != "" && ac.scheme != so.in.scheme) || ac.canon != wantCanon {
-							x.Failf("C03:authenticate-args", "Authenticate called with (%s,%s,%s), the client presented (%s,%s,%s) %s", ac.identity, ac.scheme, ac.canon, "alice@cli.test", so.in.scheme, wantCanon, script())
+						wantIdentity := lime.ParseNode(so.in.sender()).Identity.String()
+						if ac.identity != wantIdentity || (so.in.auth != "" && ac.scheme != so.in.scheme) || ac.canon != wantCanon {
+							x.Failf("C03:authenticate-args", "Authenticate called with (%s,%s,%s), the client presented (%s,%s,%s) %s", ac.identity, ac.scheme, ac.canon, wantIdentity, so.in.scheme, wantCanon, script())
 						}
 						if so.in.auth != "" && !hasScheme(cfg, ac.scheme) {
 							x.Failf("C03:unoffered-scheme-authenticated", "Authenticate called for scheme %q which was not offered %s", ac.scheme, script())
@@ -918,6 +938,10 @@ func judge(prop string) func(x *harness.X, res *rt.Result) {
 							m.regIdx++
 						}
 						authOK = rc != nil && rc.outcome != 2
+						// the node that is registered is the one of the envelope that was authenticated
+						if want("C03") && rc != nil && rc.candidate != so.in.sender() {
+							x.Failf("C03:register-candidate", "Register was given the node %q, the authenticated envelope came from %q %s", rc.candidate, so.in.sender(), script())
+						}
 						if anyState(so.got, "established") {
 							established = true
 							estEnv = so.got[len(so.got)-1]
@@ -1339,7 +1363,7 @@ func Main(prop string) {
 	}
 	switch prop {
 	case "C10":
-		c := sel("plain+key/tls-only")
+		c := sel("plain+key/tls-only", "builder:transport+guest/tls-only")
 		add("server/tls-only/d3", "server", c, 3, true, 0, -1)
 		add("channel/tls-only/d3", "channel", c, 3, true, 0, -1)
 		add("server/tls-only/d5", "server", c, 5, true, -1, 0)
